@@ -1,16 +1,19 @@
 import IndicatifModel.Proofs.Limiter
+import IndicatifModel.Model.Bar
 /-!
 # C05 — Redraw throttling: bounded frame rate and bounded staleness
 
-Property theorems only. `I` is the interval the code uses (`drawInterval rate` ns for the draw
-target, `1_000_000` ns for position updates), `B` the burst (20 / 10).
+Property theorems only. `I` is the interval (`drawInterval fx rate` ns for the draw target,
+`1_000_000` ns for position updates), `B` the burst (20 / 10). `LFix.current` names the repairs the
+repository contains; the correspondence harness runs exactly `drawCfg LFix.current rate` and
+`posCfg LFix.current` against the code.
 -/
 namespace IndicatifModel.Limiter
 
-/-- **Window bound (as the current code behaves).** In any sorted history of calls starting at
-`t1 ≥ prev`, with `k` allowed calls, `(k − 1)·I < (B + 1)·I + (t_last − t1)`,
-i.e. `k ≤ B + 1 + ⌈T / I⌉` for the window length `T = t_last − t1`. The history may start in
-any state, so this holds for every time window of every longer history. -/
+/-- **Window bound, any token bucket of this shape** (with or without the repairs). In any sorted
+history of calls starting at `t1 ≥ prev`, with `k` allowed calls,
+`(k − 1)·I < (B + 1)·I + (t_last − t1)`. The history may start in any state, so this holds for
+every time window of every longer history. -/
 theorem C05_window_bound_I (c : Cfg) (hI : 0 < c.I) : ∀ (ts : List Nat) (s : St) (t1 : Nat),
     s.prev ≤ t1 → Sorted t1 ts → 1 ≤ count (run c s (t1 :: ts)).1 →
     (count (run c s (t1 :: ts)).1 - 1) * c.I < (c.B + 1) * c.I + (lastTime t1 ts - t1) := by
@@ -44,7 +47,7 @@ theorem C05_window_bound_I (c : Cfg) (hI : 0 < c.I) : ∀ (ts : List Nat) (s : S
         simp only [lastTime] at this ⊢
         omega
       | true =>
-        have ⟨_, _, hp', _, hlt⟩ := allow_true_avail c hI s t1 s' hal
+        have ⟨_, _, hp', _, hlt, _⟩ := allow_true_avail c hI s t1 s' hal
         have hrun : (run c s (t1 :: t2 :: ts)).1 = true :: (run c s' (t2 :: ts)).1 := by
           simp only [run, hal]
         rw [hrun, count_cons_true]
@@ -52,6 +55,115 @@ theorem C05_window_bound_I (c : Cfg) (hI : 0 < c.I) : ∀ (ts : List Nat) (s : S
         simp only [lastTime] at h1 h3 ⊢
         simp only [Nat.add_sub_cancel]
         omega
+
+/-- **Window bound of the statement, in intervals.** When a full bucket keeps no remainder (`f6`),
+`k` allowed calls in a window of length `T = t_last − t1` satisfy `(k − 1)·I ≤ B·I + T`, that is
+`k ≤ B + T / I + 1`. -/
+theorem C05_window_bound (c : Cfg) (hI : 0 < c.I) (hf : c.f6 = true) : ∀ (ts : List Nat) (s : St) (t1 : Nat),
+    s.prev ≤ t1 → Sorted t1 ts → 1 ≤ count (run c s (t1 :: ts)).1 →
+    (count (run c s (t1 :: ts)).1 - 1) * c.I ≤ c.B * c.I + (lastTime t1 ts - t1) := by
+  intro ts
+  induction ts with
+  | nil =>
+    intro s t1 _ _ _
+    have hle : count (run c s [t1]).1 ≤ 1 := by
+      simp only [run, count]
+      exact Nat.le_trans (List.length_filter_le _ _) (by simp)
+    have : count (run c s [t1]).1 - 1 = 0 := by omega
+    rw [this, Nat.zero_mul]
+    exact Nat.zero_le _
+  | cons t2 ts ih =>
+    intro s t1 hprev hsorted hk
+    obtain ⟨h12, hrest⟩ := hsorted
+    cases hal : allow c s t1 with
+    | mk b s' =>
+      cases b with
+      | false =>
+        have hs' := allow_false_state c s s' t1 hal
+        subst hs'
+        have hrun : (run c s' (t1 :: t2 :: ts)).1 = false :: (run c s' (t2 :: ts)).1 := by
+          simp only [run, hal]
+        rw [hrun, count_cons_false] at hk ⊢
+        have := ih s' t2 (by omega) hrest hk
+        have hl : t2 ≤ lastTime t2 ts := (run_avail c hI ts s' t2 (by omega) hrest).2.2
+        simp only [lastTime] at this ⊢
+        omega
+      | true =>
+        have ⟨_, _, hp', _, _, hsat⟩ := allow_true_avail c hI s t1 s' hal
+        have hle := hsat hf
+        have hrun : (run c s (t1 :: t2 :: ts)).1 = true :: (run c s' (t2 :: ts)).1 := by
+          simp only [run, hal]
+        rw [hrun, count_cons_true]
+        have ⟨h1, _, h3⟩ := run_avail c hI (t2 :: ts) s' t1 hp' ⟨h12, hrest⟩
+        simp only [lastTime] at h1 h3 ⊢
+        simp only [Nat.add_sub_cancel]
+        omega
+
+/-- the draw interval of the repaired code is positive and at least `1/R` seconds -/
+theorem drawInterval_current (rate : Nat) (h1 : 1 ≤ rate) :
+    0 < drawInterval LFix.current rate ∧ 1000000000 ≤ drawInterval LFix.current rate * rate := by
+  simp only [drawInterval, LFix.current, if_true]
+  have hd := Nat.div_add_mod (1000000000 + rate - 1) rate
+  have hm := Nat.mod_lt (1000000000 + rate - 1) (show 0 < rate by omega)
+  have hcomm : rate * ((1000000000 + rate - 1) / rate) = (1000000000 + rate - 1) / rate * rate := Nat.mul_comm _ _
+  constructor
+  · apply Nat.pos_of_ne_zero
+    intro h0
+    rw [h0] at hd
+    omega
+  · omega
+
+/-- **C05, first clause, literally.** For a draw target with refresh rate `R` (1..=255), as the code
+is now: among the calls of any sorted history (any starting state), `k` painted frames in a window of
+`T` ns satisfy `(k − 21)·10⁹ ≤ R·T`, i.e. `k ≤ 20 + R·T[s] + 1`. -/
+theorem C05_window_bound_stated (rate : Nat) (h1 : 1 ≤ rate) (ts : List Nat) (s : St) (t1 : Nat)
+    (hp : s.prev ≤ t1) (hs : Sorted t1 ts) :
+    (count (run (drawCfg LFix.current rate) s (t1 :: ts)).1 - 21) * 1000000000 ≤ rate * (lastTime t1 ts - t1) := by
+  have ⟨hI, hR⟩ := drawInterval_current rate h1
+  by_cases hk : 1 ≤ count (run (drawCfg LFix.current rate) s (t1 :: ts)).1
+  · have hb := C05_window_bound (drawCfg LFix.current rate) hI rfl ts s t1 hp hs hk
+    have hIe : (drawCfg LFix.current rate).I = drawInterval LFix.current rate := rfl
+    have hBe : (drawCfg LFix.current rate).B = 20 := rfl
+    rw [hIe, hBe] at hb
+    generalize count (run (drawCfg LFix.current rate) s (t1 :: ts)).1 = k at hb hk ⊢
+    generalize drawInterval LFix.current rate = I at hb hI hR
+    generalize lastTime t1 ts - t1 = T at hb ⊢
+    -- (k-1)·I ≤ 20·I + T  ⇒  (k-21)·I ≤ T  ⇒  (k-21)·I·R ≤ R·T  and  I·R ≥ 10⁹
+    by_cases h21 : k ≤ 21
+    · have : k - 21 = 0 := by omega
+      rw [this, Nat.zero_mul]; exact Nat.zero_le _
+    · have hsplit : (k - 1) * I = (k - 21) * I + 20 * I := by
+        have : k - 1 = (k - 21) + 20 := by omega
+        rw [this, Nat.add_mul]
+      have h2 : (k - 21) * I ≤ T := by omega
+      calc (k - 21) * 1000000000 ≤ (k - 21) * (I * rate) := Nat.mul_le_mul_left _ hR
+        _ = rate * ((k - 21) * I) := by rw [← Nat.mul_assoc, Nat.mul_comm]
+        _ ≤ rate * T := Nat.mul_le_mul_left _ h2
+  · have : count (run (drawCfg LFix.current rate) s (t1 :: ts)).1 - 21 = 0 := by omega
+    rw [this, Nat.zero_mul]; exact Nat.zero_le _
+
+/-- **the position gate obeys the same law** with burst 10 and a 1 ms interval:
+`(k − 11)·10⁶ ≤ T` for `k` ticks let through in a window of `T` ns -/
+theorem C05_gate_window_bound (ts : List Nat) (s : St) (t1 : Nat) (hp : s.prev ≤ t1) (hs : Sorted t1 ts) :
+    (count (run (posCfg LFix.current) s (t1 :: ts)).1 - 11) * 1000000 ≤ lastTime t1 ts - t1 := by
+  by_cases hk : 1 ≤ count (run (posCfg LFix.current) s (t1 :: ts)).1
+  · have hb := C05_window_bound (posCfg LFix.current) (by decide) rfl ts s t1 hp hs hk
+    have hI : (posCfg LFix.current).I = 1000000 := rfl
+    have hB : (posCfg LFix.current).B = 10 := rfl
+    rw [hI, hB] at hb
+    generalize count (run (posCfg LFix.current) s (t1 :: ts)).1 = k at hb hk ⊢
+    generalize lastTime t1 ts - t1 = T at hb ⊢
+    by_cases h11 : k ≤ 11
+    · have : k - 11 = 0 := by omega
+      rw [this, Nat.zero_mul]; exact Nat.zero_le _
+    · have hsplit : (k - 1) * 1000000 = (k - 11) * 1000000 + 10 * 1000000 := by
+        have : k - 1 = (k - 11) + 10 := by omega
+        rw [this, Nat.add_mul]
+      have hb' : (k - 11) * 1000000 + 10 * 1000000 ≤ T + 10 * 1000000 := by
+        rw [← hsplit, Nat.add_comm T]; exact hb
+      exact Nat.le_of_add_le_add_right hb'
+  · have : count (run (posCfg LFix.current) s (t1 :: ts)).1 - 11 = 0 := by omega
+    rw [this, Nat.zero_mul]; exact Nat.zero_le _
 
 /-- **Liveness.** A request is allowed whenever a token is left or one full interval has passed
 since `prev`. -/
@@ -61,27 +173,157 @@ theorem C05_allow_of_interval (c : Cfg) (s : St) (now : Nat) (h : s.prev ≤ now
   have h1 : ¬ now < s.prev := by omega
   simp only [h1, if_false]
   have h3 : ¬ (s.cap = 0 ∧ now - s.prev < c.I) := by omega
-  simp [h3]
+  simp only [h3, if_false]
+  split <;> rfl
 
-/-- `prev` never runs ahead of the time of the last call, so "one interval after the last painted
-frame" implies "one interval after `prev`". -/
+/-- `prev` never runs ahead of the time of the last call -/
 theorem C05_prev_le_last (c : Cfg) (hI : 0 < c.I) (ts : List Nat) (s : St) (t0 : Nat)
     (h : s.prev ≤ t0) (hs : Sorted t0 ts) : (run c s ts).2.prev ≤ lastTime t0 ts :=
   (run_avail c hI ts s t0 h hs).2.1
 
-/-- **The stated bound `B + R·T + 1` does not hold for the code as it is** (candidate F6):
-at 20 Hz (`I` = 50 ms, `B` = 20), after an idle period, 22 calls are allowed within one
-nanosecond. -/
+/-! ### Staleness of a continuously updated bar
+
+`inc`/`dec`/`set_position` pass the position gate, and a tick that gets through is a redraw request to
+the draw limiter. Ghost state: the time of the last tick and of the last painted frame. -/
+
+structure Pipe where
+  gate : St          -- position gate, absolute times
+  draw : St          -- draw-target limiter
+  lastTick : Nat
+  lastPaint : Nat
+deriving Repr
+
+/-- one `inc` at time `t` -/
+def Pipe.inc (g d : Cfg) (p : Pipe) (t : Nat) : Pipe :=
+  let r := allow g p.gate t
+  if r.1 then
+    let q := allow d p.draw t
+    { gate := r.2, draw := q.2, lastTick := t, lastPaint := if q.1 then t else p.lastPaint }
+  else { p with gate := r.2 }
+
+/-- the invariant that bounds staleness: the limiters' `prev` never runs ahead of the last tick / the
+last painted frame, and a tick that was not painted came less than one draw interval after a frame -/
+structure PipeInv (d : Cfg) (p : Pipe) (now : Nat) : Prop where
+  gprev : p.gate.prev ≤ p.lastTick
+  dprev : p.draw.prev ≤ p.lastPaint
+  order : p.lastPaint ≤ p.lastTick ∧ p.lastTick ≤ now
+  fresh : p.lastTick - p.lastPaint < d.I
+
+theorem allow_prev (c : Cfg) (s : St) (now : Nat) :
+    ((allow c s now).1 = true → (allow c s now).2.prev ≤ now) ∧
+    ((allow c s now).1 = false → (allow c s now).2 = s ∧ (s.prev ≤ now → now - s.prev < c.I)) := by
+  unfold allow
+  split
+  · exact ⟨by simp, fun _ => ⟨rfl, fun h => by omega⟩⟩
+  · dsimp only
+    split
+    · rename_i h; exact ⟨by simp, fun _ => ⟨rfl, fun _ => h.2⟩⟩
+    · split
+      · exact ⟨fun _ => Nat.le_refl _, by simp⟩
+      · exact ⟨fun _ => Nat.sub_le _ _, by simp⟩
+
+/-- the invariant is kept by every `inc`, and right after an `inc` at time `t` the last painted frame
+is less than one gate interval plus one draw interval old -/
+theorem pipe_step (g d : Cfg) (p : Pipe) (now t : Nat) (hnow : now ≤ t) (hinv : PipeInv d p now) :
+    PipeInv d (p.inc g d t) t ∧ t - (p.inc g d t).lastPaint < g.I + d.I := by
+  obtain ⟨hg, hdp, ⟨ho1, ho2⟩, hfr⟩ := hinv
+  have hG := allow_prev g p.gate t
+  have hD := allow_prev d p.draw t
+  unfold Pipe.inc
+  dsimp only
+  cases hga : (allow g p.gate t).1 with
+  | true =>
+    simp only [if_true]
+    cases hda : (allow d p.draw t).1 with
+    | true =>
+      simp only [if_true]
+      have h1 := hG.1 hga
+      have h2 := hD.1 hda
+      refine ⟨⟨?_, ?_, ⟨?_, ?_⟩, ?_⟩, ?_⟩ <;> (try dsimp only) <;> omega
+    | false =>
+      have ⟨hsame, hlt⟩ := hD.2 hda
+      have hlt' := hlt (by omega)
+      have h1 := hG.1 hga
+      simp only [Bool.false_eq_true, if_false]
+      refine ⟨⟨?_, ?_, ⟨?_, ?_⟩, ?_⟩, ?_⟩ <;> (try dsimp only) <;> (try rw [hsame]) <;> omega
+  | false =>
+    have ⟨hsame, hlt⟩ := hG.2 hga
+    have hlt' := hlt (by omega)
+    simp only [Bool.false_eq_true, if_false]
+    refine ⟨⟨?_, ?_, ⟨?_, ?_⟩, ?_⟩, ?_⟩ <;> (try dsimp only) <;> (try rw [hsame]) <;> omega
+
+/-- **C05, staleness.** From the creation of the bar (both buckets full, nothing painted yet), along
+any non-decreasing sequence of `inc` times, right after every `inc` the last painted frame is less
+than `1 ms + I` old — for every refresh rate, every gap sequence, every bucket state in between. -/
+theorem C05_staleness (g d : Cfg) : ∀ (ts : List Nat) (p : Pipe) (now : Nat),
+    PipeInv d p now → Sorted now ts →
+    ∀ (pre : List Nat) (t : Nat) (post : List Nat), ts = pre ++ t :: post →
+      t - ((pre ++ [t]).foldl (Pipe.inc g d) p).lastPaint < g.I + d.I := by
+  intro ts
+  induction ts with
+  | nil => intro p now _ _ pre t post h; simp at h
+  | cons t1 ts ih =>
+    intro p now hinv hs pre t post h
+    obtain ⟨h01, hrest⟩ := hs
+    have ⟨hinv', hst⟩ := pipe_step g d p now t1 h01 hinv
+    cases pre with
+    | nil =>
+      simp only [List.nil_append, List.cons.injEq] at h
+      obtain ⟨rfl, _⟩ := h
+      simpa using hst
+    | cons a pre' =>
+      simp only [List.cons_append, List.cons.injEq] at h
+      obtain ⟨rfl, h2⟩ := h
+      simp only [List.cons_append, List.foldl_cons]
+      exact ih (p.inc g d t1) t1 hinv' hrest pre' t post h2
+
+/-- the state of a freshly created bar satisfies the invariant (creation counts as time zero of both
+clocks; the first `inc` is always painted because both buckets are full) -/
+theorem pipe_init (d : Cfg) (hd : 0 < d.I) (t0 : Nat) :
+    PipeInv d { gate := { cap := 10, prev := t0 }, draw := { cap := 20, prev := t0 }, lastTick := t0, lastPaint := t0 } t0 :=
+  ⟨Nat.le_refl _, Nat.le_refl _, ⟨Nat.le_refl _, Nat.le_refl _⟩, by simpa using hd⟩
+
+end IndicatifModel.Limiter
+
+namespace IndicatifModel
+
+/-- **Skipped draws lose nothing**: whenever a draw is painted, the lines handed to the terminal are
+the rendering of the bar's state at that instant (position, length, texts), not of the state at the
+time of an earlier, skipped request. -/
+theorem C05_nothing_lost (b : Bar) (force : Bool) (now : Nat) (tt : TermTarget) (ht : b.target = some tt)
+    (hgo : (tt.drawable (force || b.finished) now).1 = true) :
+    (b.draw force now).1.target.map (fun t => t.ds.lines)
+      = some (if b.status = .doneHidden then [] else formatState b) := by
+  unfold Bar.draw
+  simp only [ht]
+  cases hdr : tt.drawable (force || b.finished) now with
+  | mk go tt' =>
+    rw [hdr] at hgo
+    simp only at hgo
+    subst hgo
+    simp
+
+end IndicatifModel
+
+namespace IndicatifModel.Limiter
+
+/-- **The pinned limiter did not satisfy the stated bound** (F6): at 20 Hz (`I` = 50 ms, `B` = 20),
+after an idle period, 22 calls were allowed within one nanosecond; with the repair, 21. -/
 theorem C05_window_bound_tight_fails :
-    let c : Cfg := { I := 50000000, B := 20 }
-    let s : St := { cap := 20, prev := 0 }
     let t1 := 100 * 50000000 + 49999999
-    count (run c s (List.replicate 30 t1 ++ [t1 + 1])).1 = 22 := by
+    count (run { I := 50000000, B := 20, f6 := false } { cap := 20, prev := 0 } (List.replicate 30 t1 ++ [t1 + 1])).1 = 22 ∧
+    count (run { I := 50000000, B := 20, f6 := true } { cap := 20, prev := 0 } (List.replicate 30 t1 ++ [t1 + 1])).1 = 21 := by
+  decide
+
+/-- **The pinned interval was shorter than `1/R`** whenever `R ∤ 1000` (F7): at 255 Hz it was 3 ms,
+i.e. up to 333 frames per second; the repaired interval times the rate is at least one second. -/
+theorem C05_interval_fails_unrepaired :
+    drawInterval {} 255 * 255 < 1000000000 ∧ 1000000000 ≤ drawInterval LFix.current 255 * 255 := by
   decide
 
 /-- non-vacuity: the hypotheses of the window bound are met by a concrete bursty history -/
 example : Sorted 7 [7, 7, 50000007, 50000008] ∧
-    1 ≤ count (run { I := 50000000, B := 20 } { cap := 20, prev := 3 } [7, 7, 7, 50000007, 50000008]).1 := by
+    1 ≤ count (run (drawCfg LFix.current 20) { cap := 20, prev := 3 } [7, 7, 7, 50000007, 50000008]).1 := by
   refine ⟨⟨by omega, by omega, by omega, by omega, trivial⟩, by decide⟩
 
 end IndicatifModel.Limiter
